@@ -271,8 +271,14 @@ func (m *toolManager) handleCallTool(
 		return newJSONRPCErrorResponse(req.ID, ErrCodeInternal, errMsg, nil), nil
 	}
 
+	// A handler that returns neither a result nor an error has failed: "result": null is not a CallToolResult.
+	if result == nil {
+		errMsg := fmt.Sprintf("tool execution failed (tool: %s): handler returned no result", registeredTool.Tool.Name)
+		return newJSONRPCErrorResponse(req.ID, ErrCodeInternal, errMsg, nil), nil
+	}
+
 	// MCP requires "content" to be an array; a nil slice would be encoded as null.
-	if result != nil && result.Content == nil {
+	if result.Content == nil {
 		result.Content = []Content{}
 	}
 
